@@ -301,6 +301,11 @@ func VerifC08_InvalidPattern() {
 	ctx := context.Background()
 	bad := []string{"a", "("}
 	var err error
+	if verif.Bool("listSeenBefore") {
+		// the same list has already been rejected once in this process: it is rejected every time
+		_, first := NewExclusionRegexList(fs.PathSeparator(), bad...)
+		verif.Assert("invalid_pattern_rejected", first != nil && commonerrors.Any(first, commonerrors.ErrInvalid))
+	}
 	op := verif.Choice("op", 7)
 	switch op {
 	case 0:
